@@ -855,6 +855,8 @@ func runConcRace(r *Run) {
 			k++
 			w := w
 			mode := simdjson.CompressMode(1 + c.Intn("codecstormmode", 3))
+			failFirst := c.Intn("codecstormfail", 2) == 0
+			failPos := c.U64("codecstormfailpos")
 			wg.Add(1)
 			go func() {
 				defer wg.Done()
@@ -862,6 +864,25 @@ func runConcRace(r *Run) {
 				ser.CompressMode(mode)
 				var dst *simdjson.ParsedJson
 				<-start
+				if failFirst {
+					// a failed call right before the sustained traffic: this worker's own blob with one payload byte of a
+					// compressed block changed - whatever the failure path does with shared codecs, everybody is about to use them
+					err := safely(func() error {
+						bad := ser.Serialize(nil, *w.obj.pj)
+						if fr, ferr := parseFraming(bad); ferr == nil {
+							sec := 1 + int(failPos%3)
+							if fr.sec[sec].typeOff >= 0 && fr.sec[sec].payLen > 0 {
+								bad[fr.sec[sec].payOff+int((failPos>>8)%uint64(fr.sec[sec].payLen))] ^= byte(1 + (failPos>>40)%255)
+							}
+						}
+						simdjson.NewSerializer().Deserialize(bad, nil)
+						return nil
+					})
+					if err != nil {
+						walkerFail(w.run, "panic", "Deserialize of a damaged blob before the codec storm", err)
+						return
+					}
+				}
 				for i := 0; i < n && !w.run.failed(); i++ {
 					out, _, err := RoundTrip(ser, ser, w.obj.pj, dst)
 					if err != nil {
